@@ -402,6 +402,8 @@ class C09Monitor:
         if k == "exec_call":
             if self.pending_round is not None and self.pending_round[0] is ev["mkt"]:
                 self.pending_round = None
+            cs = getattr(self.sim, "current_session", None)
+            self.switch_at_round = None if cs is None else bool(cs.with_order_execution)
             return
         if k == "exec_exc":
             if not c["withOrderExecution"]:
@@ -410,6 +412,11 @@ class C09Monitor:
                 self.aborted_by_rule = True
             return
         if k == "exec_ret":
+            if ev["logs"] and getattr(self, "switch_at_round", True) is False and c["withOrderExecution"]:
+                # the session's execution switch had been turned off (a halt is in force) when this round began
+                self.v("execution", "fill-while-the-session-execution-switch-is-off",
+                       {"fills": [taps.snap_log(l) for l in ev["logs"]][:5], "time": ev["time"], "market": ev["mkt"].name})
+                return
             if ev["logs"] and not c["withOrderExecution"]:
                 self.v("execution", "fill-in-session-without-order-execution",
                        {"fills": [taps.snap_log(l) for l in ev["logs"]][:5], "time": ev["time"]})
